@@ -983,6 +983,13 @@ def extract_fields(obj: model.CanContainImportsDocumentable) -> None:
                            'docstring', field.lineno)
                 continue
             attrobj: Optional[model.Documentable] = obj.contents.get(arg)
+            if attrobj is not None and not isinstance(attrobj, model.Attribute):
+                # The name is bound to something that is not a variable (typically a sub-module
+                # of a package): the field does not turn it into one.
+                obj.report('Field "%s %s" documents %s, which is not a variable: the field is ignored' % (
+                                tag, arg, attrobj.fullName()),
+                           'docstring', field.lineno)
+                continue
             if attrobj is None:
                 attrobj = obj.system.Attribute(obj.system, arg, obj)
                 attrobj.kind = None
